@@ -8,8 +8,9 @@
 // Limits as the code documents them (source/xml_parser.c):
 //  * max_depth (option, 0 = 20): a node at depth d (root = 1) can be descended into only when
 //    d < max_depth ("XML document exceeds max depth."), so nodes are reported down to depth max_depth;
-//  * name length: at most 256 on the skip / body paths (the closing-tag search buffer); the
-//    traverse path has no name limit;
+//  * name length: at most 256 on the skip / body paths (the closing-tag search buffer); today the
+//    traverse path has no name limit, an implementation that rejects a longer name when it reads the
+//    start tag is accepted as well;
 //  * attributes: at most 10 ("if this is exceeded we consider it invalid document"): the
 //    declaration is rejected before the element is reported.
 // Caller obligations respected by the callback: a node is either traversed or read as body, never
@@ -546,7 +547,17 @@ static void run(const Case &c, Ctx &ctx) {
     const char *gm = nullptr;
     PBT_CHECK(galloc::check_all(&gm), "%s", gm ? gm : "");
 
-    if (victim < 0) {
+    // A name above the documented 256-character limit puts the document outside the limits.  Today it is rejected
+    // only when such an element is skipped or read as body; rejecting it as soon as its start tag is read is equally
+    // "rejected with an error instead of being mis-reported".  Every event delivered before was compared in the callback.
+    size_t first_long = SIZE_MAX;
+    for (size_t k = 0; k < m.exp.size() && first_long == SIZE_MAX; k++)
+        if (nodes[(size_t)m.exp[k].node].name.size() > NAME_LIMIT) first_long = k;
+    bool early_name_reject = first_long != SIZE_MAX && rc == AWS_OP_ERR && err == AWS_ERROR_INVALID_XML &&
+                             (rs.next == first_long || rs.next == first_long + 1) && rs.next < m.exp.size();
+    if (early_name_reject && (victim < 0 || first_long < rs.constrained)) {
+        ctx.tag("over_long_name_rejected_at_its_start_tag");
+    } else if (victim < 0) {
         PBT_CHECK(rs.next == m.exp.size(), "%zu event(s) delivered, the model expects %zu (%s)", rs.next, m.exp.size(),
                   m.terminal == T_OK ? "every element that is not inside a skipped/body-read subtree" : m.why);
         if (m.terminal == T_OK) {
